@@ -259,8 +259,10 @@ class CircuitTemplate(AbstractBaseTemplate):
 
         # either create new instance with updates or store updates on current template instance
         if not in_place:
+            # (populations and connections are taken over as they are: e.g. the circuit that `run` derives in order to
+            # add extrinsic inputs must still contain them)
             return self.__class__(name=name, path=path, description=description, circuits=circuits, nodes=nodes,
-                                  edges=edges)
+                                  edges=edges, populations=dict(self.populations), connections=list(self.connections))
         self.name = name
         self.path = path
         self.__doc__ = description
